@@ -364,6 +364,10 @@ var hookVariants = [][]string{
 	{"/usr/bin/env", "PATH=%url", "handler", "%subtype", "%url"},
 	{"view", "--url=%url", "%mimetype"},
 	{"opener", "%urls", "x%url", "%supertype/%subtype"},
+	// no URL placeholder (the link goes to standard input) and arguments that a link may happen to equal
+	{"opener", "--verbose", "--"},
+	{"view", "%subtype", "-"},
+	{"view", "%supertype", "*", "image"},
 }
 
 func planC20(tier string, seed uint64) *Plan {
@@ -378,6 +382,8 @@ func planC20(tier string, seed uint64) *Plan {
 	groups := randomPlan("ui_hook", seed, uiCfgs(seed, n, hookVariants), jobs, count, "stub")
 	// the same under racing pacing: type-ahead while the hook is being started
 	groups = append(groups, randomPlan("ui_hook_race", seed+17, uiCfgs(seed+17, n, hookVariants), 1, count/2, "stub")...)
+	// sessions driven by the keymap model: the link a typed number stands for is the link the hook gets
+	groups = append(groups, randomPlan("ui_keymap", seed+19, uiCfgs(seed+19, n, nil), 1, count, "stub")...)
 	p.Phases = []Phase{{Name: "hook-sessions", Groups: groups}}
 	return p
 }
